@@ -511,9 +511,19 @@ class Exec:
         if isinstance(op, ast.Mult): return a * b
         if isinstance(op, ast.FloorDiv):
             if isinstance(b, int) and b > 0: return a / b if isinstance(a, z3.ExprRef) else a // b   # z3 int division floors for positive divisor
+            if isinstance(b, z3.ArithRef) and b.is_int() and (isinstance(a, int) or (isinstance(a, z3.ArithRef) and a.is_int())):
+                # symbolic positive divisor: z3's integer division / modulo agree with Python's floor semantics when the divisor is positive,
+                # which is made an obligation (a zero divisor would raise ZeroDivisionError, a negative one rounds the other way)
+                self.oblige('divisor-positive@L%d' % e.lineno, ps, b > 0, e.lineno)
+                ps.pc.append(b > 0)
+                return zint(a) / b
             raise Undecided('floor division by a symbolic value at line %d' % e.lineno)
         if isinstance(op, ast.Mod):
             if isinstance(b, int) and b > 0: return a % b
+            if isinstance(b, z3.ArithRef) and b.is_int() and (isinstance(a, int) or (isinstance(a, z3.ArithRef) and a.is_int())):
+                self.oblige('divisor-positive@L%d' % e.lineno, ps, b > 0, e.lineno)
+                ps.pc.append(b > 0)
+                return zint(a) % b
             raise Undecided('modulo by a symbolic value at line %d' % e.lineno)
         raise Undecided('binary operator %s at line %d' % (type(op).__name__, e.lineno))
 
